@@ -98,10 +98,33 @@ func c02Build2(n int, edges []c02Edge) *gen.Node2 {
 			s.Val[0] = d
 		}
 	}
+	// then the edges that share a container: the source points at the destination's array / slice / map
+	// itself, so that the container (not a node) is what is referred back to
+	for _, e := range edges {
+		s, d := nodes[e.Src], nodes[e.Dst]
+		switch e.Kind {
+		case "sarr":
+			if d.Arr == nil {
+				d.Arr = &[2]*gen.Node2{}
+			}
+			s.Arr = d.Arr
+		case "sps":
+			if d.PS == nil {
+				d.PS = &[]*gen.Node2{}
+			}
+			s.PS = d.PS
+		case "spm":
+			if d.PM == nil {
+				d.PM = &map[string]*gen.Node2{}
+			}
+			s.PM = d.PM
+		}
+	}
 	return nodes[0]
 }
 
-var c02Kinds = map[string][]string{"": {"next", "kid", "map", "any"}, "B": {"arr", "ps", "pm", "val"}}
+var c02Kinds = map[string][]string{"": {"next", "kid", "map", "any"}, "B": {"arr", "ps", "pm", "val"},
+	"C": {"arr", "sarr", "ps", "sps", "pm", "spm"}}
 
 func c02Graphs(n, maxEdges int, family string) [][]c02Edge {
 	var all []c02Edge
@@ -120,7 +143,7 @@ func c02Graphs(n, maxEdges int, family string) [][]c02Edge {
 		single := map[string]bool{}
 		okc := true
 		for _, e := range cur {
-			if e.Kind == "next" || e.Kind == "any" || e.Kind == "val" {
+			if e.Kind == "next" || e.Kind == "any" || e.Kind == "val" || e.Kind == "sarr" || e.Kind == "sps" || e.Kind == "spm" {
 				k := fmt.Sprintf("%d%s", e.Src, e.Kind)
 				if single[k] {
 					okc = false
@@ -219,7 +242,7 @@ func runC02(a Args) tr.Summary {
 		case "graph":
 			var root interface{} = c02Build(c.N, c.Edges)
 			nodeT := nodeT
-			if c.Fam == "B" {
+			if c.Fam == "B" || c.Fam == "C" {
 				root, nodeT = c02Build2(c.N, c.Edges), reflect.TypeOf((*gen.Node2)(nil))
 			}
 			if c.Dest == "typed" {
@@ -286,8 +309,11 @@ func runC02(a Args) tr.Summary {
 		maxN, maxE = 4, 4
 	}
 	nontrivial := 0
-	for _, fam := range []string{"", "B"} {
+	for _, fam := range []string{"", "B", "C"} {
 		for n := 1; n <= maxN; n++ {
+			if fam == "C" && a.Tier != "thorough" && n > 2 {
+				continue // containers shared between nodes: two nodes in the quick tier
+			}
 			gs := c02Graphs(n, maxE, fam)
 			sort.Slice(gs, func(i, j int) bool { return len(gs[i]) < len(gs[j]) })
 			for _, edges := range gs {
